@@ -12,9 +12,11 @@
  * at once.
  */
 #include "vstate.h"
+#include "vctl.h"
 
 #include <poll.h>
 #include <signal.h>
+#include <sys/stat.h>
 
 static long cur_case;
 static char ctx[600];
@@ -142,6 +144,13 @@ static void one_case(long idx, void *arg)
     snprintf(ctx, sizeof ctx, "{\"case\":%ld,\"sub_seed\":\"%" PRIu64 "\",\"transport\":\"%s\",\"phase\":\"%s\",\"flavour\":%d}", idx, ss, cur_tp, cur_st, c.flavour);
     VLOG("case %s", ctx);
     vs_set_watch(true, false);
+    bool with_ctl = c.flavour == 1;
+    char ctl_dir[600] = "";
+    if (with_ctl) {
+        /* control interface on: clients attach, pipeline requests and never read their replies */
+        snprintf(ctl_dir, sizeof ctl_dir, "%s/ctl5-%d", va.dir, (int)getpid()); mkdir(ctl_dir, 0700);
+        setenv("XCM_CTL", ctl_dir, 1); vs_ledger_reset();
+    }
     if (c.flavour == 2 && (c.st == ST_ESTABLISHED || c.st == ST_PEER_CLOSED || c.st == ST_FAILED) && vtp_is_tcp_based(c.tp) && c.tp != TP_UTLS_UX && c.tp != TP_UTLS_FALLBACK) {
         progress_case(idx, &r, c.tp);
         vcase_done(true); return;
@@ -156,6 +165,12 @@ static void one_case(long idx, void *arg)
     }
     vobs("phases_reached", 1);
     char cl[120]; snprintf(cl, sizeof cl, "%s/%s", cur_tp, cur_st); vclass(cl);
+    int cfds[8]; int ncfd = 0;
+    if (with_ctl) {
+        ncfd = vctl_connect_all(ctl_dir, cfds, NULL, 8);
+        for (int i = 0; i < ncfd; i++) { for (int k = 0; k < 12; k++) { vctl_send_get(cfds[i], "xcm.type"); if (k % 4 == 3) vctl_send_get_all(cfds[i]); } }
+        if (ncfd) vobs("ctl_clients_not_reading", ncfd);
+    }
     int nops = va.thorough ? 400 : 150;
     if (v.cl.s) exercise(&v.cl, &r, nops, false, &v);
     if (v.ac.s) exercise(&v.ac, &r, nops / 2, false, &v);
@@ -164,6 +179,21 @@ static void one_case(long idx, void *arg)
     if (v.cl.s) { vx_close(&v.cl); take_alarms("xcm_close"); triple("xcm_close"); }
     if (v.ac.s) { vx_close(&v.ac); take_alarms("xcm_close"); }
     if (v.sv.s) { vx_close(&v.sv); take_alarms("xcm_close"); }
+    /* after a TLS creation that fails on unreadable credentials every later call still returns (nothing is left locked) */
+    if (vtp_is_tls(c.tp)) {
+        struct xcm_attr_map *bm = xcm_attr_map_create(); xcm_attr_map_add_bool(bm, "xcm.blocking", false);
+        if (vtp_is_bytestream(c.tp)) xcm_attr_map_add_str(bm, "xcm.service", "bytestream");
+        xcm_attr_map_add_str(bm, "tls.cert_file", va.dir);          /* a directory: can be stat'ed, cannot be loaded */
+        struct vep t1; veng_ep_init(&t1, 7, c.tp, 5);
+        { SC(&t1, "xcm_connect_a"); t1.s = xcm_connect_a(c.tp == TP_BTLS ? "btls:127.0.0.1:1" : "tls:127.0.0.1:1", bm); vs_leave(); take_alarms("xcm_connect_a"); }
+        if (t1.s) vx_close(&t1);
+        xcm_attr_map_destroy(bm);
+        struct vstate v2; char why2[200];
+        if (vstate_make(&v2, c.tp, ST_ESTABLISHED, ss ^ 99, NULL, why2, sizeof why2) == 0) vobs("creations_after_failed_tls_creation", 1);
+        take_alarms("xcm_connect_a");
+        vstate_free(&v2);
+    }
+    for (int i = 0; i < ncfd; i++) close(cfds[i]);
     if (idx < 2) vsample(ctx);
     vstate_free(&v);
     take_alarms("teardown");
